@@ -73,7 +73,7 @@ func loadFor(repo string, s *spec.Spec, tags []string, env []string, overlay map
 		// source: the export-data path would compile the mutated package and
 		// all its dependants into the build cache for each mutant (tens of GB
 		// over a full mutant run).
-		fromSource := len(overlay) > 0 && os.Getenv("LNDLINT_MUTANTS_EXPORT") == ""
+		fromSource := (len(overlay) > 0 && os.Getenv("LNDLINT_MUTANTS_EXPORT") == "") || os.Getenv("LNDLINT_FROM_SOURCE") != ""
 		res, err := load.Load(load.Config{Dir: dir, Patterns: l.Patterns, Tags: tags, Env: env, Overlay: overlay, AllDeps: fromSource})
 		if err != nil && !fromSource {
 			// The fast path needs compiled export data of the dependencies
